@@ -218,6 +218,17 @@ def rewrite_split_ops(tens, arch, nng):
 def remove_SplitSliceRead(op, arch):
 
     if op.type == Op.SplitSliceRead:
+
+        def reads_slice_with_its_own_shape(consumer):
+            # The read offset/shape are coordinates in the shape of the slice. A consumer that views its input with another
+            # shape (e.g. a strided convolution whose width was folded into the channels by fixup_strided_conv) cannot
+            # take them over
+            if consumer.ifm == op.ofm and consumer.ifm_shapes[0] != op.ofm_shapes[0]:
+                return False
+            if consumer.ifm2 == op.ofm and len(consumer.ifm_shapes) > 1 and consumer.ifm_shapes[1] != op.ofm_shapes[0]:
+                return False
+            return True
+
         # Check if it is possible to put the SplitSliceRead on the tensor consumer(s),
         # or if an avgpool need to be inserted
         # Not possible to do if consumer is a Transpose op since ifm shape has been reshaped and can not be changed
@@ -227,6 +238,7 @@ def remove_SplitSliceRead(op, arch):
             and consumer.type not in memory_only_ops
             and consumer.type != Op.Mul
             and consumer.original_type != Op.Transpose
+            and reads_slice_with_its_own_shape(consumer)
             for consumer in op.ofm.consumer_list
         ):
             # SplitSliceRead can be performed by tensor consumer(s)
